@@ -283,7 +283,9 @@ def edge_cases(draw, tier):
     sub = draw(st.lists(st.sampled_from(labs), min_size=1, max_size=5, unique=True))
     sub2 = draw(st.lists(st.sampled_from(labs), min_size=1, max_size=5, unique=True))
     return {"label_type": lt, "train": train, "test": test, "joint_space": joint, "fixed": fixed,
-            "row_labels": sorted(sub), "col_labels": sorted(sub2), "transpose": draw(st.booleans())}
+            "row_labels": sorted(sub), "col_labels": sorted(sub2), "transpose": draw(st.booleans()),
+            # user dictionaries need not be contiguous: index = gap * position + offset
+            "index_gap": draw(st.sampled_from([1, 1, 2, 3])), "index_offset": draw(st.sampled_from([0, 0, 1]))}
 
 
 def check_edge(case):
@@ -293,10 +295,13 @@ def check_edge(case):
     site = "EdgeListVectorizer[%s%s]" % ("joint" if case["joint_space"] else "split", "," + case["fixed"] if case["fixed"] != "none" else "")
     r.label("joint:%s" % case["joint_space"], "fixed:" + case["fixed"], "labels:" + case["label_type"])
     kw = {"joint_space": case["joint_space"]}
+    g, o = case.get("index_gap", 1), case.get("index_offset", 0)
     if case["fixed"] in ("row", "both"):
-        kw["row_label_dictionary"] = {t: i for i, t in enumerate(case["row_labels"])}
+        kw["row_label_dictionary"] = {t: g * i + o for i, t in enumerate(case["row_labels"])}
     if case["fixed"] in ("col", "both"):
-        kw["column_label_dictionary"] = {t: i for i, t in enumerate(case["col_labels"])}
+        kw["column_label_dictionary"] = {t: g * i + o for i, t in enumerate(case["col_labels"])}
+    if g != 1 or o != 0:
+        r.label("gapped-dictionary")
 
     def layout(edges):
         if case["transpose"] and len(edges) != 3:
@@ -325,7 +330,8 @@ def check_edge(case):
         return r
 
     def expected(edges):
-        A = np.zeros((len(want_r), len(want_c)))
+        # the fitted space is (largest row index + 1) x (largest column index + 1): user dictionaries may have gaps
+        A = np.zeros((max(want_r.values()) + 1, max(want_c.values()) + 1))
         for a, b, v in edges:
             if a in want_r and b in want_c:
                 A[want_r[a], want_c[b]] += v
